@@ -40,6 +40,7 @@ TRUSTED = [
 TOL = 1e-9
 ISA_SPELLINGS = {"x86": ["x86", "X86"], "aarch64": ["aarch64", "AArch64", "AARCH64"]}
 QUICK_ARCHS = {"x86": ["zen1", "zen4"], "aarch64": ["n1", "tx2"]}
+DEFAULT_MODELS = ["spr", "v2"]   # osaca.DEFAULT_ARCHS values (the no --arch runs need them in the private data directory)
 ISA_OF = {"a64fx": "aarch64", "a72": "aarch64", "m1": "aarch64", "n1": "aarch64", "tsv110": "aarch64", "tx2": "aarch64",
           "v2": "aarch64"}
 
@@ -594,6 +595,64 @@ def diff_views(a, b):
     return None
 
 
+NOARCH_BODIES = {
+    # integer-only x86 with tokens that look like AArch64 registers to the ISA heuristic (hex displacements, w1/x2 in names):
+    # the heuristic guesses AArch64, parsing fails, and `inspect` retries with the x86 parser and the x86 default model
+    "x86": [["addq $1, %rax", "movq 0x10(%rdi), %rbx", "addq %rbx, %rcx", "movq %rcx, 0x18(%rdi)", "cmpq %rax, %rsi", "jne .L1"],
+            ["movq 0x20(%rsi,%rax,8), %rdx", "imulq %rdx, %rcx", "incq %rax", "cmpq %rax, %rbx", "jb .Lx2"],
+            ["vaddpd %ymm0, %ymm1, %ymm2", "addq $8, %rax", "cmpq %rax, %rcx", "jne .L3"]],
+    "aarch64": [["ldr d0, [x1, #8]", "fadd d0, d0, d1", "str d0, [x1, #8]", "add x1, x1, #8", "cmp x1, x2", "b.ne .L4"],
+                ["add x3, x3, #1", "mul x4, x3, x4", "subs x5, x5, #1", "b.ne .L5"]],
+}
+
+
+def part_noarch(ctx):
+    """Marked files analysed WITHOUT --arch (ISA detected from the text, default model of the ISA, incl. the retry with the other
+    ISA after a wrong guess): the analysed lines must be exactly the lines between the markers."""
+    work = os.path.join(ctx.env.work, "noarch")
+    os.makedirs(work, exist_ok=True)
+    tasks, meta = [], {}
+    tid = 0
+    for isa, bodies in NOARCH_BODIES.items():
+        for body in bodies:
+            for rep in range(3):
+                rng = random.Random(ctx.rng.randrange(1 << 62))
+                for vname, lines, spec, idx in build_variants(rng, isa, body):
+                    if vname not in ("marked", "noise"):
+                        continue
+                    path = os.path.join(work, "n%d.s" % tid)
+                    with open(path, "w") as f:
+                        f.write("\n".join(lines) + "\n")
+                    tasks.append({"id": tid, "path": path, "lines": None})
+                    meta[tid] = {"isa": isa, "variant": vname, "lines": lines,
+                                 "body_nums": [i + 1 for i in idx if lines[i].strip() != ""]}
+                    tid += 1
+    jp, rp = os.path.join(work, "job.json"), os.path.join(work, "res.json")
+    json.dump({"arch": None, "tasks": tasks}, open(jp, "w"))
+    p = subprocess.run([sys.executable, "-W", "ignore", os.path.join(core.VERIF, "harness", "c11_e2e.py"), jp, rp],
+                       env=ctx.env.subenv(), stdout=subprocess.PIPE, stderr=subprocess.STDOUT, text=True, timeout=1500)
+    if p.returncode != 0 or not os.path.exists(rp):
+        raise core.InfraError("no-arch e2e worker failed: %s" % p.stdout[-600:])
+    nfail = 0
+    for r in json.load(open(rp)):
+        m = meta[r["id"]]
+        ctx.count("noarch_runs")
+        if "error" in r:
+            nfail += 1
+            if nfail <= 2:
+                ctx.violation("marked %s file analysed without --arch fails with %s" % (m["isa"], r["error"]),
+                              {"kind": "noarch", "isa": m["isa"], "file": m["lines"], "error": r["error"]})
+            continue
+        got = [row["num"] for row in r["view"]["rows"]]
+        if got != m["body_nums"]:
+            nfail += 1
+            if nfail <= 2:
+                ctx.violation("marked %s file analysed without --arch: analysed lines %s, the lines between the markers are %s"
+                              % (m["isa"], _short(got), _short(m["body_nums"])),
+                              {"kind": "noarch", "isa": m["isa"], "file": m["lines"], "analysed": got, "expected": m["body_nums"]})
+    ctx.log("no --arch: %d marked files (ISA detection incl. the wrong-guess retry), failures %d" % (len(tasks), nfail))
+
+
 def part_e2e(ctx, archs, per_isa, shift_every):
     work = os.path.join(ctx.env.work, "e2e")
     os.makedirs(work, exist_ok=True)
@@ -729,6 +788,9 @@ def run(ctx):
                 ctx.hidden_archs.add(a)
                 if a not in archs:
                     archs.append(a)
+    for a in DEFAULT_MODELS:
+        if a not in archs and a in core.shipped_archs():
+            archs = archs + [a]
     ctx.env = core.Env("C11", archs=archs)
     ctx.env.activate()
     import osaca.osaca as O
@@ -744,6 +806,7 @@ def run(ctx):
     part_lines(ctx, (3000 if thorough else 400) * boost, O)
     pipeline.run_pipeline_correspondence(ctx, (100 if thorough else 12) * boost, archs)
     part_e2e(ctx, archs, None if thorough else 8, 4 if thorough else 3)
+    part_noarch(ctx)
     ctx.cov["evaluations"] = sum(ctx.counts.get(k, 0) for k in ("selection_files", "lines_strings", "numbering_files", "e2e_runs",
                                                                "int_texts", "pipeline_runs"))
     ctx.cov["distinct_nontrivial"] = ctx.counts.get("selection_oracle_checked", 0) + ctx.counts.get("lines_wellformed", 0) + \
